@@ -285,7 +285,10 @@ def unit_otlp_dispatch(ctx):
         P.add_dump(mir, "emit_otlp")
         A = oc.build(P)
         _log(ctx, "OtlpInner::emit abstraction: %s; %d SMT lines" % (A.stats(), len(A.S.lines)))
-        cfg_driver.decide_cfg(ctx, oc.obligations(P, A), u.dir, jobs=_jobs())
+        def native_for():
+            return u.native("dispatch", [("emitter/otlp", [], True)], append=[(oc.FILE, oc.WRAPPER)])
+
+        cfg_driver.decide_cfg(ctx, oc.obligations(P, A, native_for), u.dir, jobs=_jobs())
     except (engine.EngineError, Unsupported, Inconclusive) as e:
         _cfg_fail(ctx, "E2_dispatch_exactly_one_first_configured_accepting", "E2-cfg otlp unit: %s" % e)
     except Exception as e:
